@@ -1,6 +1,9 @@
 use crate::conn_id::ConnectionId;
 use aldrin_core::{ObjectCookie, ServiceCookie};
+#[cfg(not(kani))]
 use std::collections::HashSet;
+#[cfg(kani)]
+use crate::verif_collections::HashSet;
 
 #[derive(Debug)]
 pub(crate) struct Object {
@@ -40,3 +43,7 @@ impl Object {
         self.svcs.iter().copied()
     }
 }
+
+#[cfg(kani)]
+#[path = "/verif/harness/broker/object.rs"]
+pub(crate) mod verif;
